@@ -103,7 +103,7 @@ func (f *faultSpec) String() string {
 }
 
 type claimPlan struct {
-	PErr     string // none generic1 generic2 createerr1 ice-sticky ice-once ncnr-sticky ncnr-once
+	PErr     string // none generic1 generic2 createerr1 ice-sticky ice-once ncnr-sticky ncnr-once ice-in-createerr ncnr-in-createerr-once
 	Reg      world.KubeletOpts
 	ExtraEph []string
 	AtOnce   bool // the node appears Ready, untainted (except unregistered) and with its resources reported
@@ -294,7 +294,7 @@ func build(sc scen) (*common.Scenario, []string) {
 // ---- plans and scripts ----
 
 func genPlans(rng *rand.Rand, claims []*claimState) {
-	perrs := []string{"none", "none", "none", "none", "none", "generic1", "generic2", "createerr1", "ice-sticky", "ice-sticky", "ice-once", "ncnr-sticky", "ncnr-once"}
+	perrs := []string{"none", "none", "none", "none", "none", "generic1", "generic2", "createerr1", "ice-sticky", "ice-sticky", "ice-once", "ncnr-sticky", "ncnr-once", "ice-in-createerr", "ncnr-in-createerr-once"}
 	for _, c := range claims {
 		p := claimPlan{PErr: perrs[rng.Intn(len(perrs))]}
 		p.Reg = world.KubeletOpts{Ready: rng.Intn(5) == 0, NotReadyTaints: rng.Intn(10) < 7, ZeroExtended: rng.Intn(10) < 7, NoUnregistered: rng.Intn(6) == 0,
@@ -1090,6 +1090,13 @@ func execute(r *mon.Report, sc scen, f *faultSpec) *exec {
 			if n < 1 {
 				return cloudprovider.NewInsufficientCapacityError(errors.New(msgICE))
 			}
+		case "ice-in-createerr":
+			// the shape real providers return: the capacity error wrapped by the CreateError that carries the condition reason
+			return cloudprovider.NewCreateError(fmt.Errorf("creating instance, %w", cloudprovider.NewInsufficientCapacityError(errors.New(msgICE))), "InstanceCreationFailed", "c14: no capacity")
+		case "ncnr-in-createerr-once":
+			if n < 1 {
+				return cloudprovider.NewCreateError(fmt.Errorf("resolving nodeclass, %w", cloudprovider.NewNodeClassNotReadyError(errors.New(msgNCNR))), "NodeClassNotReady", "c14: nodeclass not ready")
+			}
 		case "ncnr-sticky":
 			return cloudprovider.NewNodeClassNotReadyError(errors.New(msgNCNR))
 		case "ncnr-once":
@@ -1336,7 +1343,7 @@ func run(r *mon.Report, tier string, idx int, rng *rand.Rand) {
 func init() {
 	reg.Register(&reg.Prop{
 		ID: "C14", Level: "fault_enumeration",
-		Rule:  "each case = generated scenario: world (catalog incl. an extended-resource type, 1-2 NodePools with taints / 0-2 startup taints, 0-1 daemonset) + 1-3 pending pods (half request verif.io/gpu, host-port conflicts force several claims) -> NodeClaims through the real Provisioner.Schedule/Create; per claim a provider error plan {none, generic x1/x2, CreateError, ICE sticky/once, NodeClassNotReady sticky/once} and a kubelet plan (register with/without unregistered taint, not-ready/unreachable/uninitialized taints, zeroed extended resources, Ready at once or later); PRNG-interleaved script of lifecycle reconciles (32% on a monotonically stale snapshot up to 3 stored versions old, 8% on a cache that did not advance at all since the claim's previous reconcile), kubelet steps {register, ready, remove startup taints, remove ephemeral taints, report extended resources} in every order, clock steps, for one claim in ten an external delete before its first reconcile followed by a reconcile of the cached pre-delete copy; run once fault-free (K calls enumerated), then once per (error kind, call k) [quick: 500, 409, 404 on every API write and provider call; thorough: 500, 409, 404, 429, timeout on every call incl. reads], once per crash point k (CrashSentinel at write k, recovered at the reconcile boundary, Env.Restart()), once per lost response k (API write k applied, caller told it timed out), each followed by <=12 fault-free closing rounds of {kubelet fix-up, fresh reconcile}; plus one probe run outside the quantifier (NotReady flaps, 55% non-advancing cache) whose True->Unknown regressions are diagnostics only. One evaluation = one run. Non-trivial = a monitor antecedent fired; distinct by (fault kind x faulted call x antecedents/features seen).",
+		Rule:  "each case = generated scenario: world (catalog incl. an extended-resource type, 1-2 NodePools with taints / 0-2 startup taints, 0-1 daemonset) + 1-3 pending pods (half request verif.io/gpu, host-port conflicts force several claims) -> NodeClaims through the real Provisioner.Schedule/Create; per claim a provider error plan {none, generic x1/x2, CreateError, ICE sticky/once, NodeClassNotReady sticky/once, ICE / NodeClassNotReady wrapped inside a CreateError} and a kubelet plan (register with/without unregistered taint, not-ready/unreachable/uninitialized taints, zeroed extended resources, Ready at once or later); PRNG-interleaved script of lifecycle reconciles (32% on a monotonically stale snapshot up to 3 stored versions old, 8% on a cache that did not advance at all since the claim's previous reconcile), kubelet steps {register, ready, remove startup taints, remove ephemeral taints, report extended resources} in every order, clock steps, for one claim in ten an external delete before its first reconcile followed by a reconcile of the cached pre-delete copy; run once fault-free (K calls enumerated), then once per (error kind, call k) [quick: 500, 409, 404 on every API write and provider call; thorough: 500, 409, 404, 429, timeout on every call incl. reads], once per crash point k (CrashSentinel at write k, recovered at the reconcile boundary, Env.Restart()), once per lost response k (API write k applied, caller told it timed out), each followed by <=12 fault-free closing rounds of {kubelet fix-up, fresh reconcile}; plus one probe run outside the quantifier (NotReady flaps, 55% non-advancing cache) whose True->Unknown regressions are diagnostics only. One evaluation = one run. Non-trivial = a monitor antecedent fired; distinct by (fault kind x faulted call x antecedents/features seen).",
 		Cases: cases, Run: run,
 		MinObserved: map[string]int{
 			"provider_create_success":                                             50,
